@@ -87,23 +87,43 @@ def lattice_exact(values, div):
 # ----------------------------------------------------------------------------
 # running operation sequences on the real archive, with the oracle
 # ----------------------------------------------------------------------------
+SINGLE_OPS = ("add", "rem", "append", "iadd_single")
+LIST_OPS = ("extend_list", "extend_gen", "iadd_list", "iadd_gen")
+ARCH_OPS = ("extend_arch", "iadd_arch")
+# operand kinds of the archive-valued bulk operations: (class, shares the target's dominance instance?)
+OPERANDS = [("archive", False), ("archive", True), ("grid", False), ("grid", True), ("eps", False)]
+
+
+def op_sids(op):
+    kind, payload = op
+    if kind in SINGLE_OPS:
+        return [payload]
+    if kind in LIST_OPS:
+        return list(payload)
+    return list(payload["hist"])
+
+
 class GridCase:
-    """cfg = dict(cap, nobjs, div, dirs, con); points: sid -> (objs, cv); ops: list of (kind, sid)."""
+    """cfg = dict(cap, nobjs, div, dirs, con); points: sid -> (objs, cv); ops: list of (kind, payload):
+         add / rem / append / iadd_single : payload = sid
+         extend_list / extend_gen / iadd_list / iadd_gen : payload = [sid, ...]   (list or generator operand)
+         extend_arch / iadd_arch : payload = {"type": archive|grid|eps, "share": bool, "hist": [sid...], "cap", "div", "eps"}
+             (operand = another archive built by adding hist to it; share = it uses the target's dominance object)"""
 
     def __init__(self, cfg, points, ops, exact):
         self.cfg, self.points, self.ops, self.exact = cfg, points, ops, exact
 
     def to_json(self, upto=None):
         ops = self.ops if upto is None else self.ops[:upto + 1]
-        used = {sid for _, sid in ops}
+        used = {sid for op in ops for sid in op_sids(op)}
         return {"kind": "grid", "cfg": self.cfg, "exact": self.exact,
                 "points": {str(s): [[repr(float(v)) for v in self.points[s][0]], repr(float(self.points[s][1]))] for s in sorted(used)},
-                "ops": [[k, s] for k, s in ops]}
+                "ops": [[k, pl] for k, pl in ops]}
 
     @staticmethod
     def from_json(d):
         pts = {int(s): ([float(v) for v in o], float(cv)) for s, (o, cv) in d["points"].items()}
-        return GridCase(d["cfg"], pts, [(k, int(s)) for k, s in d["ops"]], bool(d.get("exact", False)))
+        return GridCase(d["cfg"], pts, [(k, pl) for k, pl in d["ops"]], bool(d.get("exact", False)))
 
 
 def snapshot(arch):
@@ -259,21 +279,72 @@ def run_grid_case(case, arch=None, objs_by_sid=None):
         viol.append((key, "initial state: " + msg, -1))
     init = obs(True)
     out = []
-    for k, (kind, sid) in enumerate(case.ops):
-        s = obj(sid)
+    def describe(kind, payload):
+        if kind in SINGLE_OPS:
+            return "%s(%r)" % (kind, val(obj(payload))[0])
+        if kind in LIST_OPS:
+            return "%s(%r)" % (kind, [val(obj(x))[0] for x in payload])
+        return "%s(%s%s built from %r)" % (kind, payload["type"], " sharing the dominance object" if payload["share"] else "", [val(obj(x))[0] for x in payload["hist"]])
+
+    for k, (kind, payload) in enumerate(case.ops):
         before_members = list(arch._contents)
         before = snapshot(arch)
+        offered = None
+        if kind in SINGLE_OPS:
+            s = obj(payload)
+            if kind in ("append", "iadd_single"):
+                offered = [s]
+        elif kind in LIST_OPS:
+            offered = [obj(x) for x in payload]
+        else:
+            # another archive as the operand, built from a sub-history
+            from platypus import Archive, EpsilonBoxArchive, ParetoDominance
+            dom = arch._dominance if payload["share"] else ParetoDominance()
+            if payload["type"] == "archive":
+                operand = Archive(dom)
+            elif payload["type"] == "grid":
+                operand = AdaptiveGridArchive(payload["cap"], cfg["nobjs"], payload["div"], dom)
+            else:
+                operand = EpsilonBoxArchive([payload["eps"]] * cfg["nobjs"])
+            for x in payload["hist"]:
+                operand.add(obj(x))
+            offered = list(operand)      # what the bulk operation will iterate over
         del calls[:]
         try:
             if kind == "add":
                 ret = arch.add(s)
-            else:
+            elif kind == "rem":
                 ret = orig_remove(s)
+            else:
+                ret = True
+                if kind == "append":
+                    arch.append(s)
+                elif kind == "iadd_single":
+                    r = arch.__iadd__(s)
+                elif kind == "extend_list":
+                    arch.extend(list(offered))
+                elif kind == "extend_gen":
+                    arch.extend(x for x in offered)
+                elif kind == "iadd_list":
+                    r = arch.__iadd__(list(offered))
+                elif kind == "iadd_gen":
+                    r = arch.__iadd__(x for x in offered)
+                elif kind == "extend_arch":
+                    arch.extend(operand)
+                elif kind == "iadd_arch":
+                    r = arch.__iadd__(operand)
+                else:
+                    raise ValueError(kind)
+                if kind.startswith("iadd") and r is not arch:
+                    viol.append(("grid-iadd-did-not-return-self", "%s returned %r" % (kind, r), k))
         except Exception as e:  # the model says add/remove never raise under the invariant
-            viol.append(("grid-operation-raised", "%s(%r) raised %r in state members=%r bounds=%r..%r density=%r" % (
-                kind, val(s), e, [val(m)[0] for m in before_members], before["min"], before["max"], before["dens"]), k))
+            viol.append(("grid-operation-raised", "%s raised %r in state members=%r bounds=%r..%r density=%r" % (
+                describe(kind, payload), e, [val(m)[0] for m in before_members], before["min"], before["max"], before["dens"]), k))
             out.append(None)
             break
+        stats["op_" + kind] += 1
+        if not before_members and kind not in ("add", "rem"):
+            stats["bulk_as_first_operation_on_empty_archive"] += 1
         if kind == "add":
             present_calls = [c for c in calls if c.get("present")]
             for key, msg in oracle_add(arch, cfg, case.exact, val, s, before_members, before, ret, list(calls)):
@@ -288,7 +359,7 @@ def run_grid_case(case, arch=None, objs_by_sid=None):
             if ret is not False or present_calls:
                 if any(spec_better(cfg["con"], cfg["dirs"], val(s), val(m)) for m in before_members):
                     stats["add_evicted_dominated"] += 1
-        else:
+        elif kind == "rem":
             was = any(m is s for m in before_members)
             exp = list(before_members)
             if was:
@@ -296,9 +367,22 @@ def run_grid_case(case, arch=None, objs_by_sid=None):
             if ret is not was or [id(x) for x in arch._contents] != [id(x) for x in exp]:
                 viol.append(("grid-remove-wrong-members", "remove(%r): member=%r returned %r" % (val(s), was, ret), k))
             stats["remove_member" if was else "remove_nonmember"] += 1
+        else:
+            # bulk insertion: every member afterwards was a member before or was offered; if nothing offered was
+            # acceptable nothing changes.  (what exactly is kept is decided by the per-add clauses, which the
+            # model correspondence replays as a fold of add)
+            allowed = {id(x) for x in before_members} | {id(x) for x in offered}
+            stray = [val(m)[0] for m in arch._contents if id(m) not in allowed]
+            if stray:
+                viol.append(("grid-bulk-insert-foreign-members", "%s: members %r were neither members before nor offered" % (describe(kind, payload), stray), k))
+            if len(offered) + len(before_members) > cfg["cap"]:
+                stats["bulk_beyond_capacity"] += 1
         for key, msg in check_state(arch, cfg, case.exact, val):
-            viol.append((key, "after op %d %s(%r): %s" % (k, kind, val(s)[0], msg), k))
-        out.append(obs(bool(ret)))
+            viol.append((key, "after op %d %s: %s" % (k, describe(kind, payload), msg), k))
+        o = obs(bool(ret))
+        if offered is not None:
+            o["bulk"] = [sid_of[id(x)] for x in offered]
+        out.append(o)
         if any(v[2] == k for v in viol):
             break
     arch.remove = orig_remove
@@ -345,9 +429,37 @@ def gen_grid_case(rng, disc, maxlen=40):
         cv = rng.choice([0.0, 0.0, 0.0, 0.5, 1.0]) if con else 0.0
         return (o, cv)
 
-    for _ in range(n):
+    def fresh(cnt):
+        sids = []
+        for _ in range(cnt):
+            sid = len(points)
+            points[sid] = newpoint()
+            sids.append(sid)
+            offered.append(sid)
+        return sids
+
+    def bulk_op(big):
+        kind = rng.choice(["append", "iadd_single", "extend_list", "extend_gen", "iadd_list", "iadd_gen", "extend_arch", "iadd_arch", "iadd_arch", "iadd_arch"])
+        if kind in SINGLE_OPS:
+            return (kind, fresh(1)[0] if (rng.random() < 0.7 or not offered) else rng.choice(offered))
+        cnt = rng.randrange(cap + 1, 2 * cap + 6) if big else rng.randrange(0, 7)
+        sids = fresh(cnt)
+        if offered and rng.random() < 0.3:
+            sids.insert(rng.randrange(len(sids) + 1), rng.choice(offered))   # an object offered before
+        if kind in LIST_OPS:
+            return (kind, sids)
+        typ, share = rng.choice(OPERANDS)
+        return (kind, {"type": typ, "share": share, "hist": sids, "cap": rng.randrange(1, 16), "div": rng.randrange(1, 4),
+                       "eps": rng.choice([0.25, 0.5, 1.0, 2.0])})
+
+    first_bulk = rng.random() < 0.3         # a bulk entry point as the FIRST operation on the empty archive
+    for step in range(n):
         r = rng.random()
-        if r < 0.62 or not offered:
+        if step == 0 and first_bulk:
+            ops.append(bulk_op(rng.random() < 0.7))
+        elif r < 0.10:
+            ops.append(bulk_op(rng.random() < 0.3))
+        elif r < 0.62 or not offered:
             sid = len(points)
             points[sid] = newpoint()
             ops.append(("add", sid))
@@ -378,6 +490,20 @@ def corpus_cases():
     cfg3 = {"cap": 2, "nobjs": 1, "div": 3, "dirs": [True], "con": False}
     out.append(GridCase(cfg3, {0: ([1.0], 0.0), 1: ([1.0], 0.0), 2: ([1.0], 0.0), 3: ([2.0], 0.0), 4: ([0.0], 0.0)},
                         [("add", 0), ("add", 1), ("add", 2), ("add", 0), ("add", 4), ("add", 3)], True))
+    # every inserting entry point as the FIRST operation on an empty archive, offered more mutually non-dominated
+    # points than the capacity, then once more on the filled archive
+    front = [(0, 12), (1, 10), (2, 9), (3, 8), (4, 6), (5, 5), (6, 4), (8, 3), (9, 2), (10, 1), (12, 0), (2, 9), (11, 11)]
+    fpts = {i: ([float(a), float(b)], 0.0) for i, (a, b) in enumerate(front)}
+    cfg4 = {"cap": 4, "nobjs": 2, "div": 2, "dirs": [False, False], "con": False}
+    ids = list(range(len(front)))
+    bulk = [("extend_list", ids), ("extend_gen", ids), ("iadd_list", ids), ("iadd_gen", ids)]
+    for typ, share in OPERANDS:
+        for kind in ARCH_OPS:
+            bulk.append((kind, {"type": typ, "share": share, "hist": ids, "cap": 20, "div": 2, "eps": 0.5}))
+    for op in bulk:
+        out.append(GridCase(cfg4, fpts, [op, op, ("add", 5)], True))
+    out.append(GridCase(cfg4, fpts, [("append", 0), ("iadd_single", 1), ("append", 0), ("iadd_single", 11)] + [("append", i) for i in range(2, 9)], True))
+    out.append(GridCase(cfg4, fpts, [("iadd_single", 3), ("append", 4), ("iadd_arch", {"type": "grid", "share": True, "hist": ids, "cap": 20, "div": 2, "eps": 0.5})], True))
     for c in out:
         assert lattice_exact(sorted({v for o, _ in c.points.values() for v in o}), c.cfg["div"])
     return out
@@ -408,10 +534,13 @@ def obs_lit(o):
 def case_lit(case, init, obs):
     cfg = case.cfg
     ops = []
-    for (kind, sid), o in zip(case.ops, obs):
+    for (kind, payload), o in zip(case.ops, obs):
         if o is None:
             break
-        ops.append("(%s %s, %s)" % ("OAdd" if kind == "add" else "ORem", gs_lit(sid, case.points[sid]), obs_lit(o)))
+        if kind in ("add", "rem"):
+            ops.append("(%s %s, %s)" % ("OAdd" if kind == "add" else "ORem", gs_lit(payload, case.points[payload]), obs_lit(o)))
+        else:       # a bulk entry point = fold of add over what it iterated
+            ops.append("(OBulk %s, %s)" % (C.list_lit([gs_lit(x, case.points[x]) for x in o["bulk"]]), obs_lit(o)))
     return "GK (gc %d %d %d %s %s) %s %s" % (cfg["cap"], cfg["nobjs"], cfg["div"], C.bool_lit(cfg["con"]), C.list_lit([C.bool_lit(d) for d in cfg["dirs"]]),
                                              obs_lit(init), C.list_lit(ops))
 
@@ -684,7 +813,7 @@ def run(ctx):
         dist["divisions"][cfg["div"]] += 1
         dist["nobjs"][cfg["nobjs"]] += 1
         dist["length"][10 * (len(case.ops) // 10)] += 1
-        if st["add_overflow"] or st["add_evicted_dominated"] or st["remove_member"]:
+        if st["add_overflow"] or st["add_evicted_dominated"] or st["remove_member"] or st["bulk_beyond_capacity"]:
             ctx.mark(repr((sorted(cfg.items()), case.ops, sorted(case.points.items()))))
         for key, msg, k in viol:
             nviol += 1
@@ -786,9 +915,11 @@ def run(ctx):
     ctx.coverage["trace_rejected_random_configs"] = len(rejected)
     ctx.coverage["trace_rejected_random_configs_sample"] = rejected[:5]
     ctx.coverage["correspondence_cases"] = len(lits) + len(zl)
-    ctx.rule = ("grid: 3 fixed histories + random operation sequences (length 0-40; add new / add twin / re-add same object / public remove) on integer and dyadic lattices "
+    ctx.rule = ("grid: fixed histories (section 7 history; every inserting entry point - append, extend(list/generator/Archive/AdaptiveGridArchive/EpsilonBoxArchive), += list/generator/"
+                "single/Archive/AdaptiveGridArchive/EpsilonBoxArchive with and without a shared dominance object - as first operation on an empty archive) + random operation sequences "
+                "(length 0-40; add new / add twin / re-add same object / public remove / the bulk entry points, 30% of histories start with one) on integer and dyadic lattices "
                 "verified exact for find_index, capacities 1-6, divisions 1-4, 1-3 objectives, random directions, 20% constrained; non-trivial = history with an overflow, an eviction "
-                "of dominated members or a removal of a member; distinct by full input.  + float histories (oracle only) + exploration of reachable states + one trace per "
+                "of dominated members, a removal of a member or a bulk insertion beyond the capacity; distinct by full input.  + float histories (oracle only) + exploration of reachable states + one trace per "
                 "(algorithm, sizes) configuration, each counted once")
     ctx.assumptions += [
         "exact rational arithmetic in find_index (float rounding not modelled; correspondence restricted to lattices verified exact)",
